@@ -367,6 +367,184 @@ def maskbit_defs(tree, consts):
 
 
 # ---------------------------------------------------------------------------------------------------------------------
+# (5) validate
+#
+# Outside pygen's statement subset (a dictionary of address objects, `assert`, two loops that raise), so it is CUT and
+# REWRITTEN mechanically (every rewrite is checked and fails closed):
+#
+#   part 1   the statements in front of the first loop, which must start with `addresses = {}` and end with the pinned
+#            `own = ipaddress.ip_interface(...)`: the dictionary is only read by the first loop, in insertion order, and
+#            its keys are DISTINCT string constants (checked), so it is the list of its values:
+#            `addresses = {}` -> `addresses = []`, `addresses["k"] = e` -> `addresses += [e]`, `return addresses` added;
+#            `assert self.ip_start is not None` / `ip_end` are pinned: they evaluate the property (AddressValueError)
+#   loop 1   `for key in addresses.keys(): <body>`: the body is translated as a function of the value `addresses[key]`
+#   loop 2   `for interface in self.interfaces.values(): <body>`: the body is translated
+#   in both bodies `assert X` is rewritten to `if not X: raise AssertionError("assert")` (Python without -O) and
+#   `a in b` / `a not in b` with `b` = `own.network` to `b.__contains__(a)` / `not b.__contains__(a)`; the two
+#   `raise exceptions.TestError(...)` statements are pinned verbatim (class + message)
+
+VALIDATE_PRELUDE = [
+    "/-- `<iface> in own.network` (`IPv4Network.__contains__` of an address object: `ip & netmask == network_address`;",
+    "the hand model's `inNet`) -/",
+    "def inNetwork (c : Netconfig) (a : IpIface) : Bool := inNet c a.1",
+    "/-- `ipaddress.ip_interface(\"%s/%s\" % (self.ip_start, self.mask_bit))`: the property `ip_start` is",
+    "`str(IPv4Address(self.net_ip) + minint)` (AddressValueError when it leaves the address space); `minint` is the hand",
+    "model's `minOff` (NOT tied here) -/",
+    "def ipStartIface (c : Netconfig) : Except Err IpIface := do",
+    "  let a ← ipv4 (Int.ofNat c.netIp + Int.ofNat (minOff c.range)); pure (a.toNat, c.bits)",
+    "def ipEndIface (c : Netconfig) : Except Err IpIface := do",
+    "  let a ← ipv4 (Int.ofNat c.netIp + Int.ofNat (maxOff c.range)); pure (a.toNat, c.bits)",
+    "/-- `interface.netconfig` / `self` as object references -/",
+    "abbrev NcRef := Option Nat",
+]
+
+VALIDATE_HOST_TEST = "self.host_ip is not None and self.host_ip != ''"
+VALIDATE_OWN = "own = " + IFACE.format("self.net_ip")
+VALIDATE_RAISE_ADDR = """
+raise exceptions.TestError('The predefined %s %s is not in the netconfig %s' % (key, addresses[key], self.net_ip))
+"""
+VALIDATE_RAISE_IFACE = """
+raise exceptions.TestError('The interface with ip %s is not in the netconfig %s' % (ip, self.net_ip))
+"""
+VALIDATE_DOC = "`VMNetconfig.validate` of avocado_i2n/vmnet/netconfig.py, cut and rewritten by harness/pygen_pxnet.py: "
+ASSERT_RAISES = [("AssertionError", "assert", "Err.assertion")]
+CONTAINS = {"own.network.__contains__(_1)": ("(inNetwork c {1})", "bool", "pure", ("IpIface",))}
+
+
+def _rw_expr(e):
+    """`a in own.network` -> `own.network.__contains__(a)`, `a not in own.network` -> `not own.network.__contains__(a)`"""
+    import copy
+
+    class T(ast.NodeTransformer):
+        def visit_Compare(self, n):
+            self.generic_visit(n)
+            if len(n.ops) == 1 and isinstance(n.ops[0], (ast.In, ast.NotIn)) \
+                    and ast.unparse(n.comparators[0]) == "own.network":
+                call = ast.Call(func=ast.Attribute(value=n.comparators[0], attr="__contains__", ctx=ast.Load()),
+                                args=[n.left], keywords=[])
+                return call if isinstance(n.ops[0], ast.In) else ast.UnaryOp(op=ast.Not(), operand=call)
+            return n
+    return T().visit(copy.deepcopy(e))
+
+
+def _rw_body(stmts, where, keys=None, pinned=()):
+    """the rewrites of (5); `keys` collects the keys of `addresses[...] = e` (None: such a store is refused)"""
+    out = []
+    for st in stmts:
+        if pygen.dump_stmts([st]) in pinned:
+            out.append(st)
+        elif isinstance(st, ast.Assert):
+            if st.msg is not None:
+                raise Unsupported(f"{where}: `{ast.unparse(st)[:60]}` (an assert with a message)")
+            out.append(ast.If(test=ast.UnaryOp(op=ast.Not(), operand=_rw_expr(st.test)),
+                              body=[ast.Raise(exc=ast.Call(func=ast.Name(id="AssertionError", ctx=ast.Load()),
+                                                           args=[ast.Constant(value="assert")], keywords=[]), cause=None)],
+                              orelse=[]))
+        elif isinstance(st, ast.Assign) and len(st.targets) == 1 and isinstance(st.targets[0], ast.Subscript) \
+                and ast.unparse(st.targets[0].value) == "addresses":
+            k = st.targets[0].slice
+            if keys is None or not isinstance(k, ast.Constant) or not isinstance(k.value, str) or k.value in keys:
+                raise Unsupported(f"{where}: `{ast.unparse(st)[:60]}` (only `addresses[<a new string constant>] = e` in "
+                                  "front of the loops)")
+            keys.append(k.value)
+            out.append(ast.AugAssign(target=ast.Name(id="addresses", ctx=ast.Store()), op=ast.Add(),
+                                     value=ast.List(elts=[_rw_expr(st.value)], ctx=ast.Load())))
+        elif isinstance(st, ast.If):
+            out.append(ast.If(test=_rw_expr(st.test), body=_rw_body(st.body, where, keys, pinned),
+                              orelse=_rw_body(st.orelse, where, keys, pinned)))
+        elif isinstance(st, (ast.Assign, ast.Expr, ast.Raise, ast.Pass)):
+            for n in ast.walk(st):
+                if isinstance(n, ast.Name) and n.id == "addresses" and isinstance(n.ctx, (ast.Store, ast.Del)):
+                    raise Unsupported(f"{where}: `{ast.unparse(st)[:60]}` rebinds `addresses`")
+            if isinstance(st, ast.Assign):
+                st = ast.Assign(targets=st.targets, value=_rw_expr(st.value), type_comment=None)
+            out.append(st)
+        else:
+            raise Unsupported(f"{where}: `{ast.unparse(st)[:60]}` ({type(st).__name__} inside a rewritten part)")
+    return out
+
+
+def validate_defs(tree, consts):
+    import copy
+    fn = _class_function(tree, "VMNetconfig", "validate")
+    _args(fn, ["self"])
+    where = f"validate:{fn.lineno}"
+    body = _strip_logs(_body(fn), where)
+    loops = [k for k, st in enumerate(body) if isinstance(st, ast.For)]
+    if len(loops) != 2 or loops != [len(body) - 2, len(body) - 1] or loops[0] < 2:
+        raise Unsupported(f"{where}: the function is no longer <statements>; <loop over addresses>; <loop over interfaces>")
+    part1, loop1, loop2 = body[:loops[0]], body[-2], body[-1]
+    _pinned(part1[:1], "addresses = {}", where, "`addresses = {}`")
+    _pinned(part1[-1:], VALIDATE_OWN, where, "`own = ipaddress.ip_interface(...)` in front of the loops")
+    _no_jumps(part1, where)
+    for lp, target, it in ((loop1, "key", "addresses.keys()"), (loop2, "interface", "self.interfaces.values()")):
+        if lp.orelse or ast.unparse(lp.target) != target or ast.unparse(lp.iter) != it:
+            raise Unsupported(f"{where}: a loop is no longer `for {target} in {it}:` (without an else)")
+        _no_jumps(lp.body, where)
+    pins = {"assert self.ip_start is not None": "let _ ← ipStartIface c",
+            "assert self.ip_end is not None": "let _ ← ipEndIface c"}
+    keys = []
+    mid = _rw_body(copy.deepcopy(part1[1:-1]), where, keys, {pygen.norm_block(k) for k in pins})
+    first = ast.parse("addresses = []").body[0]
+    last = ast.parse("return addresses").body[0]
+    addr_fn = _synth("validate_addresses", [], [first] + mid + [last], part1[0])
+    addr_spec = Spec(
+        "genValidateAddresses", binders=[("c", "Netconfig")], params={}, ret=("list", "IpIface"), monad="except",
+        atoms={VALIDATE_HOST_TEST: ("c.host.isSome", "bool"),
+               IFACE.format("self.host_ip"): ("(c.host.getD 0, c.bits)", "IpIface"),
+               IFACE.format("self.ip_start"): ("ipStartIface c", "IpIface", "raises"),
+               IFACE.format("self.ip_end"): ("ipEndIface c", "IpIface", "raises")},
+        stmts=pins, local_types={"addresses": ("list", "IpIface")},
+        doc=VALIDATE_DOC + "the statements in front of the loops; the dictionary `addresses` (distinct constant keys "
+                           + ", ".join(keys) + "; only iterated) is the list of its values in insertion order; `c.host` is "
+                           "`none` for None and for the empty string")
+    b1 = _rw_body(copy.deepcopy(loop1.body), where)
+    _no_names_bound(b1, (), where)
+    a_fn = _synth("validate_address", [], b1, loop1)
+    a_spec = Spec("genValidateAddress", binders=[("c", "Netconfig"), ("a", "IpIface")], params={}, ret="unit",
+                  monad="except", atoms={"addresses[key]": ("a", "IpIface")}, calls=CONTAINS,
+                  stmts={VALIDATE_RAISE_ADDR: "throw Err.testError"},
+                  doc=VALIDATE_DOC + "the body of `for key in addresses.keys():`; `a` = `addresses[key]`")
+    b2 = _rw_body(copy.deepcopy(loop2.body), where)
+    _no_names_bound(b2, ("ip",), where)
+    i_fn = _synth("validate_interface", [], b2, loop2)
+    i_spec = Spec(
+        "genValidateIface", binders=[("n", "Nat"), ("c", "Netconfig"), ("i", "Nat"), ("f", "Iface")], params={},
+        ret="unit", monad="except",
+        atoms={"interface.netconfig": ("f.nc", "NcRef"), "self": ("(some n : NcRef)", "NcRef"),
+               "self.interfaces[interface.ip]": ("ifsGet c f.ip", "Nat", "raises"), "interface": ("i", "Nat"),
+               IFACE.format("interface.ip"): ("(f.ip, c.bits)", "IpIface")},
+        calls=CONTAINS, stmts={VALIDATE_RAISE_IFACE: "throw Err.testError"}, raises=ASSERT_RAISES,
+        type_defaults={"NcRef": "none", "Nat": "0"},
+        doc=VALIDATE_DOC + "the body of `for interface in self.interfaces.values():`; `n` = self (the netconfig object), "
+                           "`i` = the interface object, `f` = its attributes; `==` on objects is identity")
+    d1 = pygen.translate(addr_fn, addr_spec, consts)
+    d2 = pygen.translate(a_fn, a_spec, consts)
+    d3 = pygen.translate(i_fn, i_spec, consts)
+    skeleton = [
+        "/-- `for key in addresses.keys(): <genValidateAddress>` -/",
+        "def genValidateAddrs (c : Netconfig) : List IpIface → Except Err Unit",
+        "  | [] => pure ()",
+        "  | a :: rest => do",
+        "    genValidateAddress c a",
+        "    genValidateAddrs c rest",
+        "/-- `for interface in self.interfaces.values(): <genValidateIface>` -/",
+        "def genValidateIfaces (s : Net) (n : Nat) (c : Netconfig) : List (Nat × Nat) → Except Err Unit",
+        "  | [] => pure ()",
+        "  | (_, i) :: rest => do",
+        "    genValidateIface n c i (s.iface i)",
+        "    genValidateIfaces s n c rest",
+        "/-- `validate` of netconfig object `n` (skeleton matched structurally): the statements in front of the loops,",
+        "the loop over the addresses, the loop over the interfaces -/",
+        "def genValidate (s : Net) (n : Nat) : Except Err Unit := do",
+        "  let c := s.nc n",
+        "  genValidateAddrs c (← genValidateAddresses c)",
+        "  genValidateIfaces s n c c.ifs",
+    ]
+    return [VALIDATE_PRELUDE, d1, d2, d3, skeleton]
+
+
+# ---------------------------------------------------------------------------------------------------------------------
 # (6) VMNetwork.reattach_interface (avocado_i2n/vmnet/network.py) -> lean/I2N/Extracted/GenNetwork.lean
 #
 # The function assigns to its parameters `client_nic` / `server_nic` (pygen refuses that), so it is CUT here:
@@ -697,6 +875,7 @@ def net_source(path=None):
                        ("add_interface", addif_spec()), ("translate_address", translate_spec())):
         defs.append(pygen.translate(pygen.find_function(tree, "VMNetconfig." + name), spec, consts))
     defs += maskbit_defs(tree, consts)
+    defs += validate_defs(tree, consts)
     return pygen.render_file("harness/pygen_pxnet.py:extract_net (called by harness/props/c18.py:extract) from "
                              "avocado_i2n/vmnet/netconfig.py", ["I2N.Model.Net"], "I2N.Extracted.GenNet", ["I2N.Net"], defs)
 
